@@ -2,7 +2,7 @@ package main
 
 func init() {
 	props["C35"] = &propCfg{Engine: "clocksim", Test: "TestC35", Level: "exploration",
-		Quick: tierCfg{Runs: 12800, BudgetS: 120}, Thorough: tierCfg{Runs: 2000000, JobSize: 25000, BudgetS: 1500}}
+		Quick: tierCfg{Runs: 12800, BudgetS: 120}, Thorough: tierCfg{Runs: 1000000, JobSize: 20000, BudgetS: 1500}}
 	props["C36"] = &propCfg{Engine: "clocksim", Test: "TestC36", Level: "exploration",
-		Quick: tierCfg{Runs: 12800, BudgetS: 120}, Thorough: tierCfg{Runs: 2000000, JobSize: 25000, BudgetS: 1500}}
+		Quick: tierCfg{Runs: 12800, BudgetS: 120}, Thorough: tierCfg{Runs: 1000000, JobSize: 20000, BudgetS: 1500}}
 }
